@@ -36,7 +36,7 @@ ASSUMPTIONS = [
     "excluded: callables, context, composite_move_type, unique_labels, and the attributes documented as reset after each move",
     "JSON text is produced and parsed by ase.io.jsonio (the codec the restart observer uses)",
 ]
-REQUIRED = {"modules_imported_first": 20, "class_roundtrips": 300, "classes_discovered": 15, "driver_roundtrips": 50, "attributes_compared": 1000}
+REQUIRED = {"generator_states_compared": 50, "modules_imported_first": 20, "class_roundtrips": 300, "classes_discovered": 15, "driver_roundtrips": 50, "attributes_compared": 1000}
 SHARD_TIMEOUT = {"quick": 600, "thorough": 1800}
 
 EXCLUDE = {"context", "composite_move_type", "unique_labels", "check_move", "distribution", "to_displace_labels", "displaced_labels", "to_add_atoms", "to_delete_label", "exchange_atoms", "number_of_moved_particles", "strain_tensor"}
@@ -388,6 +388,12 @@ def check_driver(rec, dname, cls, first):
             rec.count("attributes_compared")
             if not plain_equal(getattr(mc, s), getattr(mc2, s, "<missing>")):
                 rec.viol(f"C08/driver/{dname}/lost/{s}", f"{dname}.{s}: {getattr(mc, s)!r} became {getattr(mc2, s, '<missing>')!r}"[:300], {"driver": dname, "setting": s})
+    # generator state: the live generators themselves (not the dictionaries, which could both lack it)
+    g1, g2 = getattr(getattr(mc, "context", None), "rng", None), getattr(getattr(mc2, "context", None), "rng", None)
+    if g1 is not None:
+        rec.count("generator_states_compared")
+        if g2 is None or not plain_equal(g1.bit_generator.state, g2.bit_generator.state):
+            rec.viol(f"C08/driver/{dname}/lost/generator-state", f"{dname}: the rebuilt simulation's generator is not in the state of the original's", {"driver": dname})
     if hasattr(mc, "exchange_atoms"):
         a, b = mc.exchange_atoms, mc2.exchange_atoms
         if list(a.symbols) != list(b.symbols) or not np.array_equal(a.positions, b.positions):
